@@ -521,9 +521,13 @@ func spec_direct(u *gengotypes.Universe, q string) bool { return gengotypes.Spec
 //@   ensures len(spec_fx()) >= len(old(spec_fx())) && eq(spec_fx()[:len(old(spec_fx()))], old(spec_fx()))
 //@   ensures !c.args.All ==> forall i int :: len(old(spec_fx())) <= i && i < len(spec_fx()) ==> spec_isPkgEffect(spec_fx()[i], c.universe, c.args.OutputFileBaseName, false)
 //@   ensures c.args.All ==> exists n int :: len(old(spec_fx())) <= n && n <= len(spec_fx()) && (forall i int :: len(old(spec_fx())) <= i && i < n ==> spec_isPkgEffect(spec_fx()[i], c.universe, c.args.OutputFileBaseName, true)) && (forall i int :: n <= i && i < len(spec_fx()) ==> spec_fx()[i].Path == filepath.Join(c.universe.SumFile().Dir, "gengo.sum"))
-//@   loop 1 invariant c.args != nil && c.universe != nil && eq(spec_fx(), old(spec_fx()))
+//@   ensures len(spec_calls()) >= len(old(spec_calls())) && eq(spec_calls()[:len(old(spec_calls()))], old(spec_calls()))
+//@   ensures forall i int :: len(old(spec_calls())) <= i && i < len(spec_calls()) && spec_callFailed(spec_calls()[i]) ==> result != nil && i == len(spec_calls())-1 && (forall j int :: len(old(spec_fx())) <= j && j < len(spec_fx()) ==> spec_isPkgEffect(spec_fx()[j], c.universe, c.args.OutputFileBaseName, c.args.All))
+//@   note the second clause: when a generator or deferred callback failed, Execute returns an error, runs no further user code, and every effect of the run is a package effect: gengo.sum is NOT rewritten (Save is not reached)
+//@   loop 1 invariant c.args != nil && c.universe != nil && eq(spec_fx(), old(spec_fx())) && eq(spec_calls(), old(spec_calls()))
 //@   loop 2 invariant c.args != nil && c.universe != nil && c.l != nil && len(spec_fx()) >= len(old(spec_fx())) && eq(spec_fx()[:len(old(spec_fx()))], old(spec_fx()))
 //@   loop 2 invariant forall i int :: len(old(spec_fx())) <= i && i < len(spec_fx()) ==> spec_isPkgEffect(spec_fx()[i], c.universe, c.args.OutputFileBaseName, c.args.All)
+//@   loop 2 invariant len(spec_calls()) >= len(old(spec_calls())) && eq(spec_calls()[:len(old(spec_calls()))], old(spec_calls())) && (forall i int :: len(old(spec_calls())) <= i && i < len(spec_calls()) ==> !spec_callFailed(spec_calls()[i]))
 //@   loop 2 invariant forall i int :: 0 <= i && i < len(ys2) ==> spec_local(c.universe, ys2[i]) && (ys2b[i] == spec_direct(c.universe, ys2[i]))
 //@   note C02: gengo.sum is touched only after every package succeeded (an error from pkgExecute returns before Save) and only when All is set; every effect on gengo.sum comes after all package effects, so a process that dies before the end leaves gengo.sum untouched. C07: without All only directly requested packages are processed.
 
